@@ -1,4 +1,5 @@
 import Proofs.Lemmas.Adders
+import Proofs.Lemmas.KoggeStone
 /-!
 # C13 — rtllib adders and multipliers are exact for all widths and values
 
@@ -28,8 +29,20 @@ theorem cla_unit_exact (a b : List Bool) (cin : Bool) (h : a.length = b.length) 
     toNat (claUnit a b cin).1 + 2 ^ a.length * b2n (claUnit a b cin).2 = toNat a + toNat b + b2n cin :=
   (claUnit_spec a b cin h hne).1
 
--- Kogge-Stone: the model is tied to the real generator and checked exhaustively for widths ≤ 5x5
--- (with carry-in) on every run; kernel-evaluated instances (these are tests, not the general theorem):
+/-- **`kogge_stone`**: exact `a + b + cin` for operands of any two lengths: after the rounds with
+    prefix distance 1, 2, 4, … every generate bit is the rippled carry out of its position (the
+    parallel-prefix recurrences `G' = G | P & G[i-d]`, `P' = P & P[i-d]` compose windows), so the final
+    XOR with the original propagate bits is the sum.  (False of the tree as first given — the carry-in
+    was XORed into bit 0 only; repaired by a `fix:` commit.) -/
+theorem kogge_stone_exact (a b : List Bool) (cin : Bool) :
+    toNat (koggeStone a b cin) = toNat a + toNat b + b2n cin := by
+  have ha := zext_length a (max a.length b.length) (Nat.le_max_left _ _)
+  have hb := zext_length b (max a.length b.length) (Nat.le_max_right _ _)
+  have := KS.ks_core (zext a (max a.length b.length)) (zext b (max a.length b.length)) cin (by rw [ha, hb])
+  simp only [ha, toNat_zext] at this
+  exact this
+
+-- kernel-evaluated instances:
 example : toNat (koggeStone (ofNat 4 11) (ofNat 4 7) true) = 11 + 7 + 1 := by decide
 example : toNat (koggeStone (ofNat 5 31) (ofNat 3 1) false) = 32 := by decide
 example : toNat (claAdder (ofNat 5 29) (ofNat 2 3) true 2) = 33 := by decide
